@@ -122,5 +122,7 @@ void h_run(void) {
   int v = fiber_semaphore_getvalue(&sem);
   if (v != sinit + posts_done - successes)
     sim_violation("C06-value-at-rest", "value %d but initial %d + posts %d - successful waits %d = %d", v, sinit, posts_done, successes, sinit + posts_done - successes);
+  fiber_semaphore_destroy(&sem);
+  free(sem_p);
   h_fiber_end();
 }
